@@ -89,6 +89,10 @@ let model_bytes l = match words l with
      | Some (k, iv) -> hex_of_bytes k ^ hex_of_bytes iv | None -> "F")
   | ["encsecret"; mk; d; iv] -> hex_opt (Model.encrypt_secret (bytes_of_hex mk) (bytes_of_hex d) (bytes_of_hex iv))
   | ["decsecret"; mk; d; iv] -> hex_opt (Model.decrypt_secret (bytes_of_hex mk) (bytes_of_hex d) (bytes_of_hex iv))
+  | ["rtsecret"; mk; d; iv] ->
+    (match Model.encrypt_secret (bytes_of_hex mk) (bytes_of_hex d) (bytes_of_hex iv) with
+     | None -> "F"
+     | Some ct -> hex_of_bytes ct ^ "|" ^ hex_opt (Model.decrypt_secret (bytes_of_hex mk) ct (bytes_of_hex iv)))
   | _ -> "BADCASE"
 let model args l = if args = ["bytes"] then model_bytes l else model_ops l
 
@@ -132,6 +136,8 @@ let holds args case impl =
         let nm = (match String.split_on_char '/' p with [_; _; m] -> (if String.length m > 0 then String.sub m 1 (String.length m - 1) else "") | _ -> "") in
         let can = (match String.split_on_char '/' sg with a :: _ -> a | [] -> "") in
         if kind = "enc" && r = "1" then encrypted_ok := true;
+        if not !encrypted_ok && e = "1" && np <> "0" then
+          fail "fail failed-begin-leaves-master-key: EncryptWallet returned false but the wallet claims to be encrypted and locked while all its keys are plaintext (mapMasterKeys keeps the new master key)";
         if !encrypted_ok then begin
           if nm = "0" then fail "fail unchecked-mkey-write: EncryptWallet returned true but the wallet has crypted keys and no master key record: the private keys are unrecoverable"
           else if np <> "0" then begin
